@@ -426,10 +426,131 @@ def run(ctx):
         (o.seqid, o.start, o.end) for o in db.merge(cm)]
     res.extra["model_d9_fixed"] = MODEL_D9_FIXED
 
-    # TODO(children_bp): db.children_bp(feature, child_featuretype, merge=False/True) on generated hierarchies -
-    #   sum of child lengths / size of the union computed by `union_per_class`; model: Merge.merge on the children.
-    # TODO(merge_all): db.merge_all(...) on generated databases - one stored feature per multi-member run, level-1
-    #   relations to the members or their deletion (exclude_components), over the `Db` model.
+    # ---- database-backed clauses: children_bp / merge_all ----------------------------------------------------------------
+    import os
+    import warnings
+    import dbside
+    import gen_db
+    from common import enc, dec
+    r2 = ctx.rng("dbmerge")
+    dcmds, dexp, dtags = [], [], []
+
+    def union_size(ivs):
+        covered = set()
+        for a, b in ivs:
+            covered.update(range(a, b + 1))
+        return len(covered)
+
+    def runs_of(ivs):
+        """maximal runs of overlapping-or-adjacent intervals: list of (start, end, members)"""
+        out = []
+        for a, b, name in sorted(ivs):
+            if out and a <= out[-1][1] + 1:
+                out[-1][1] = max(out[-1][1], b)
+                out[-1][2].append(name)
+            else:
+                out.append([a, b, [name]])
+        return out
+
+    ndb = 25 if not ctx.thorough else 300
+    for di in range(ndb):
+        # a transcript with overlapping / adjacent / separate exons (one strand), plus unrelated features
+        strand = r2.choice("+-")
+        exons = []
+        for e in range(r2.randrange(0, 7)):
+            a = r2.randrange(1, 60)
+            exons.append((a, a + r2.randrange(0, 15)))
+        starts = set()
+        exons = [x for x in exons if not (x[0] in starts or starts.add(x[0]))]      # pairwise different starts
+        lines = [gen_db.gff_line("chr1", "mRNA", 1, 100, strand, [("ID", ["t"])])]
+        for i, (a, b) in enumerate(exons):
+            lines.append(gen_db.gff_line("chr1", "exon", a, b, strand, [("ID", ["e%d" % i]), ("Parent", ["t"])]))
+        for i in range(r2.randrange(0, 3)):
+            a = r2.randrange(1, 60)
+            lines.append(gen_db.gff_line("chr2", "exon", a, a + 5, strand, [("ID", ["o%d" % i])]))
+        path = dbside.write_lines(os.path.join(ctx.scratch, "bp.gff3"), lines)
+        db, rep = dbside.py_create(path, dbside.Cfg())
+        if db is None:
+            continue
+        inp = {"lines": lines}
+        res.evaluations += 1
+        dcmds.append(dbside.cmd_create(lines, dbside.Cfg())); dexp.append(rep); dtags.append(("create_db", repr(lines)))
+        for mg in (False, True):
+            try:
+                got = db.children_bp("t", child_featuretype="exon", merge=mg)
+            except Exception as ex:
+                res.oracle_failures.append(("children_bp raised %r" % ex, dict(inp, merge=mg)))
+                continue
+            want = union_size(exons) if mg else sum(b - a + 1 for a, b in exons)
+            if got != want:
+                res.oracle_failures.append(("children_bp(merge=%r) is not the %s" % (mg, "size of the union of the children"
+                                                                                     if mg else "summed child lengths"),
+                                            dict(inp, returned=got, expected=want)))
+            dcmds.append("bp %s %s %d" % (enc("t"), enc("exon"), 1 if mg else 0)); dexp.append("ok %d" % got)
+            dtags.append(("children_bp", repr((lines, mg))))
+        res.count("children_bp")
+        # merge_all on a fresh copy of the same database
+        for exclude in (False, True):
+            db2, _ = dbside.py_create(path, dbside.Cfg())
+            before = {str(x["id"]): x for x in dbside.rows_of(db2)}
+            try:
+                with warnings.catch_warnings():
+                    warnings.simplefilter("ignore")
+                    merged = db2.merge_all(exclude_components=exclude)
+            except Exception as ex:
+                res.oracle_failures.append(("merge_all raised %r" % ex, dict(inp, exclude_components=exclude)))
+                continue
+            res.evaluations += 1
+            after = {str(x["id"]): x for x in dbside.rows_of(db2)}
+            rels = set(dbside.rels_of(db2))
+            # expected runs per class (seqid, featuretype, strand)
+            classes = {}
+            for k, x in before.items():
+                classes.setdefault((x["seqid"], x["featuretype"], x["strand"]), []).append((x["start"], x["end"], k))
+            exp_runs = [run for ivs in classes.values() for run in runs_of(ivs) if len(run[2]) > 1]
+            new = {k: x for k, x in after.items() if k not in before}
+            ok = len(new) == len(exp_runs) == len(merged)
+            for a, b, members in exp_runs:
+                cand = [k for k, x in new.items() if (x["start"], x["end"]) == (a, b)]
+                if not cand:
+                    ok = False
+                    continue
+                mid = cand[0]
+                for m_ in members:
+                    if exclude:
+                        ok = ok and m_ not in after
+                    else:
+                        ok = ok and (mid, m_, 1) in rels and m_ in after
+            if not exclude:
+                ok = ok and all(k in after for k in before)
+            if not ok:
+                res.oracle_failures.append(("merge_all does not store one new feature per multi-member run and relate its "
+                                            "members at level 1 (or delete them with exclude_components)",
+                                            dict(inp, exclude_components=exclude, new=sorted(new),
+                                                 expected_runs=[(a, b, m_) for a, b, m_ in exp_runs])))
+            dcmds.append(dbside.cmd_create(lines, dbside.Cfg())); dexp.append(rep); dtags.append(("create_db", repr(lines)))
+            dcmds.append("mergeall %d" % (1 if exclude else 0))
+            dexp.append("SET " + pyside.enc_list(sorted(str(f.id) for f in merged))); dtags.append(("merge_all result", repr((lines, exclude))))
+            dcmds.append("dump"); dexp.append(("DUMP", dbside.dump(db2))); dtags.append(("tables after merge_all", repr((lines, exclude))))
+        res.count("merge_all")
+    dout = ctx.model(dcmds) if dcmds else None
+    if dout is not None:
+        for c, m, e, (comp, inpx) in zip(dcmds, dout, dexp, dtags):
+            res.corr_checked += 1
+            if isinstance(e, tuple):
+                a, b = dbside.parse_dump(m), dbside.parse_dump(e[1])
+                def canon(d):
+                    return (sorted((f["id"], tuple(f["cols"][:1] + f["cols"][2:]), f["attrs"], f["bin"]) for f in d["features"]),
+                            sorted(d["relations"]), d["auto"], d["pauto"])
+                # the merged feature's `source` is a join over a Python set (order arbitrary): column 1 is not compared
+                if "error" in a or "error" in b or canon(a) != canon(b):
+                    res.corr_disagreements.append((comp, inpx[:800], m[:700], e[1][:700]))
+            elif e.startswith("SET "):
+                mm = "SET " + pyside.enc_list(sorted(dec(x) for x in m[3:].split(",") if x != "_")) if m.startswith("ok ") else m
+                if mm != e:
+                    res.corr_disagreements.append((comp, inpx[:800], m[:300], e[:300]))
+            elif m != e:
+                res.corr_disagreements.append((comp, inpx[:800], m[:300], e[:300]))
     res.assumptions = [
         "inputs are proper intervals (integer start <= end): a last run whose extent has length 0 (end = start-1) is "
         "not yielded at all because `if current_merged:` is len() != 0 - recorded as an observation, Lean witness in "
